@@ -303,8 +303,6 @@ def run(c):
         "Go harness store.go / store_gen.go / store_c06.go / store_c06_child.go (schema interpreter, history generator, fact projection - "
         "string sets inside a child-store bucket are projected to the same S: facts as the model's root-level sets -, ValidateDeleted call) "
         "and lib/storefam.py / checks/c06.py",
-        "child-level wirings C06cp / C06cx / C06cm (links, set index, fk index / constraints declared on child stores) are OUTSIDE wf_notrace_b: "
-        "for them the check rests on the correspondence Store/Model.v = boltz and on the no-trace oracle, not on the theorems",
         "ref-counted link collections are NOT in the Coq machine: covered by the harness stream + oracle only",
     ]
     model = vlib.build_model("Store")
@@ -457,9 +455,8 @@ def run(c):
 def main(argv):
     c = vlib.Check(PID, argv)
     c.assumptions = ["bbolt rollback restores the previous content (trusted; observed by the full traversal after every transaction)",
-                     "schemas satisfy wf_notrace_b (checked by computation for the harness wirings idx, fkc, casc, cl in Examples/C06Wirings.v; the "
-                     "child-level wirings C06cp, C06cx, C06cm do NOT satisfy it - Examples/C06Wirings.v *_outside_wf - and are covered by the "
-                     "correspondence + oracle only)"]
+                     "schemas satisfy wf_notrace_b (checked by computation for the harness wirings idx, fkc, casc, cl and the child-level "
+                     "wirings C06cp, C06cx, C06cm in Examples/C06Wirings.v)"]
     files = [f for f in FILES if os.path.exists(os.path.join(vlib.COQ, f))]
     proof_ok = c.proof_step(files) and len(files) == len(FILES)
     run(c)
